@@ -1,7 +1,9 @@
 #!/usr/bin/env python3
 """Evaluate behaviour-preserving refactorings (written by independent sub-agents) against the proof units:
 every unit should keep all its obligations (no false alarm).  Usage: tools_refactor.py /tmp/ref  -> seeded/REFACTORINGS.json
-tools_refactor.py --stored  re-evaluates the patches kept in seeded/refactorings/ (R*: sub-agents, H*: hand-made, see REFACTORINGS.md)."""
+tools_refactor.py --stored  re-evaluates the patches kept in seeded/refactorings/ (R*: sub-agents, H*: hand-made, see REFACTORINGS.md).
+With VERIF_REFACTOR_FULL=1 every patch is also put through the 20 registered quick checks (`./check CNN --tier quick`: units + ledger + linkage +
+signature defaults + order-site scan + bounded side); field `checks_alarmed` lists the checks that did not exit 0."""
 import glob, json, os, subprocess, sys, tempfile
 
 VERIF = os.path.dirname(os.path.abspath(__file__))
@@ -9,6 +11,27 @@ VERIF = os.path.dirname(os.path.abspath(__file__))
 
 def sh(cmd, cwd=None, env=None):
     return subprocess.run(cmd, shell=True, cwd=cwd, env=env, capture_output=True, text=True, timeout=3600)
+
+
+def full_checks(wt):
+    """All 20 quick checks against the patched tree (evidence redirected to a scratch directory)."""
+    from concurrent.futures import ThreadPoolExecutor
+    evdir = tempfile.mkdtemp(prefix='refev-', dir='/tmp')
+    env = dict(os.environ, VERIF_REPO=wt, VERIF_EVIDENCE_DIR=evdir, PYTHONPATH=VERIF)
+
+    def one(k):
+        pid = 'C%02d' % k
+        r = sh('./check %s --tier quick' % pid, cwd=VERIF, env=env)
+        if r.returncode == 0 and 'VIOLATION' not in r.stdout:
+            return None
+        lines = [l for l in r.stdout.splitlines() if 'VIOLATION' in l or 'lost' in l or 'ungenerated' in l][:4]
+        return '%s exit=%d %s' % (pid, r.returncode, ' | '.join(l[:200] for l in lines))
+    try:
+        with ThreadPoolExecutor(4) as ex:
+            return [x for x in ex.map(one, range(1, 21)) if x]
+    finally:
+        import shutil
+        shutil.rmtree(evdir, ignore_errors=True)
 
 
 def main(root):
@@ -41,6 +64,9 @@ def main(root):
                 if not stored:
                     shutil.copy(diff, os.path.join(VERIF, 'seeded', 'refactorings', rid + '.diff'))
                 out[rid] = {'files': files, 'tests': t.stdout.strip()[-60:], 'units_alarmed': bad}
+                if os.environ.get('VERIF_REFACTOR_FULL'):
+                    out[rid]['checks_alarmed'] = full_checks(wt)
+                    bad = bad or out[rid]['checks_alarmed']
                 print(rid, files, 'ALARM' if bad else 'quiet', len(bad))
                 for b in bad[:3]:
                     print('    ', b[:200])
